@@ -374,3 +374,42 @@ func init() {
 		ext(p+"Size", func(fr *frame, a []value) value { return 8 })
 	}
 }
+
+// ---------------------------------------------------------------- SIMD wrappers
+//
+// The AVX/SSE kernels are machine code (C15's subject, asmsmt). Elsewhere the
+// Go wrappers are modelled by what their Go part does (&a[0] and &b[0] panic
+// on empty slices) followed by the portable kernel of index/space, whose real
+// SSA is executed. cpuid reports AVX so that the production dispatch is taken.
+func init() {
+	kernels := map[string]string{"EuclideanDistance": "EuclideanDistance", "ManhattanDistance": "ManhattanDistance", "CosineDistance": "CosineDistance"}
+	for _, pkg := range []string{"github.com/marekgalovic/anndb/simd/avx", "github.com/marekgalovic/anndb/simd/sse"} {
+		for name, nat := range kernels {
+			nat := nat
+			ext(pkg+"."+name, func(fr *frame, a []value) value {
+				x, y := a[0].([]value), a[1].([]value)
+				if len(x) == 0 {
+					panic(targetRuntimeError{"index out of range [0] with length 0"})
+				}
+				if len(y) == 0 {
+					panic(targetRuntimeError{"index out of range [0] with length 0"})
+				}
+				if len(y) < len(x) {
+					panic(targetRuntimeError{fmt.Sprintf("simd kernel reads %d floats from a vector of %d (out of bounds)", len(x), len(y))})
+				}
+				sp := fr.i.prog.ImportedPackage("github.com/marekgalovic/anndb/index/space")
+				if sp == nil {
+					panic(engineError{"index/space not loaded for the portable kernel"})
+				}
+				t := sp.Type("nativeSpaceImpl").Type()
+				f := fr.i.prog.LookupMethod(t, sp.Pkg, nat)
+				if f == nil {
+					panic(engineError{"portable kernel " + nat + " not found"})
+				}
+				return call(fr.i, fr, 0, f, []value{zero(t), a[0], a[1]})
+			})
+		}
+	}
+	ext("(github.com/klauspost/cpuid.CPUInfo).AVX", func(fr *frame, a []value) value { return true })
+	ext("(github.com/klauspost/cpuid.CPUInfo).SSE", func(fr *frame, a []value) value { return true })
+}
